@@ -9,6 +9,7 @@ import (
 	"golang.org/x/tools/go/ssa"
 
 	"verif/internal/ev"
+	"verif/internal/load"
 )
 
 // C13: Run honours cancellation at an instruction boundary, leak- and
@@ -67,17 +68,39 @@ func c13(cx *Ctx, r *ev.Report) {
 			r.Check(len(w) == 0, "C13/no-leak/func=(*CPU).Run", ruleL, pos, "value", w...)
 		}
 	} else if ri.goInstr == nil {
-		// idiom without a goroutine (e.g. ctx.Err() polled in the loop): nothing to leak or race
+		// idiom without a goroutine (e.g. ctx.Err() polled in the loop): nothing to leak or race -
+		// provided no helper Run calls (outside Step's tree) starts one either
 		goN := 0
-		for _, b := range ri.run.Blocks {
-			for _, in := range b.Instrs {
-				if _, ok := in.(*ssa.Go); ok {
-					goN++
+		seen := map[*ssa.Function]bool{}
+		var visit func(fn *ssa.Function)
+		visit = func(fn *ssa.Function) {
+			if fn == nil || seen[fn] || fn == cx.E.Step || fn.Blocks == nil || !load.InModule(fn) {
+				return
+			}
+			seen[fn] = true
+			for _, af := range fn.AnonFuncs {
+				visit(af)
+			}
+			for _, b := range fn.Blocks {
+				for _, in := range b.Instrs {
+					switch x := in.(type) {
+					case *ssa.Go:
+						goN++
+					case ssa.CallInstruction:
+						visit(x.Common().StaticCallee())
+					}
 				}
 			}
 		}
-		r.Check(goN == 0, "C13/no-leak/func=(*CPU).Run", ruleL, pos, "shape", "goroutine started in an unrecognised way")
-		r.Hold("C13/watcher-protocol/func=(*CPU).Run", ruleW+" (no watcher goroutine: cancellation is polled synchronously)", pos, "shape")
+		visit(ri.run)
+		if goN > 0 {
+			why := "a goroutine is started in a way neither the value summary (" + cx.runSem().err.Error() + ") nor the structural fallback can follow (UNDECIDED)"
+			r.Undecide("C13/no-leak/func=(*CPU).Run", ruleL, pos, why)
+			r.Undecide("C13/watcher-protocol/func=(*CPU).Run", ruleW, pos, why)
+		} else {
+			r.Hold("C13/no-leak/func=(*CPU).Run", ruleL, pos, "shape")
+			r.Hold("C13/watcher-protocol/func=(*CPU).Run", ruleW+" (no watcher goroutine: cancellation is polled synchronously)", pos, "shape")
+		}
 	} else {
 		det = nil
 		cl := ri.closure
